@@ -107,11 +107,12 @@ func runSystemScenarios(c *Ctx) {
 		[]sysStim{{Kind: "createJC", JC: 0}, {Kind: "advance", D: 20, Tick: true, Chaos: 3}, {Kind: "podStart", Name: "alpha-" + fmt.Sprint(sim.VirtualBase.Unix()+620) + "-gezdqo-0"},
 			{Kind: "advance", D: 20, Tick: true, Chaos: 3}}),
 		append(all("create:jobs", 1), nth("update:jobs:status", 1, "err", 3)))
-	// F-C20-1 (known finding): a task that was created but not recorded (the status update after
-	// the pod create failed) is leaked when the Job is deleted before the retry: for a Job with a
-	// deletion timestamp syncJobTasks is skipped, and the finalizer sweeps only the tasks listed in
-	// the status, so the finalizer is removed and the Job disappears while its pod still exists
-	// (only the Kubernetes garbage collector would remove it, through the owner reference).
+	// F-C20-1 (repaired; regression replay): a task that was created but not recorded (the status
+	// update after the pod create failed) was leaked when the Job was deleted before the retry: for
+	// a Job with a deletion timestamp syncJobTasks is skipped, and the finalizer swept only the
+	// tasks listed in the status, so the finalizer was removed and the Job disappeared while its
+	// pod still existed (only the Kubernetes garbage collector would remove it, through the owner
+	// reference).  The finalizer now adopts the unrecorded tasks of the pod cache as well.
 	c.RunScenario("f-c20-1-orphan-task-after-delete", func() {
 		wl := sysScenarioWorkload(nil, nil)
 		plan := nth("update:jobs:status", 2, "err", 1)
